@@ -34,7 +34,7 @@ def check_sat(assertions, timeout_ms=20000, want_model=True, fallbacks=True, tac
         return 'unknown', None, dt, 'z3api'
     # the same query under other random seeds first: non-linear queries are decided in milliseconds under one seed and
     # time out under another, and a verdict must not depend on that luck
-    for seed in (7, 31):
+    for seed in (7, 31, 101):
         try:
             s2 = z3.Solver()
             s2.set('timeout', first_budget)
